@@ -351,7 +351,10 @@ func c04API(c *Ctx) {
 		{Name: "Nested", In: "Req", Out: "Reply", Unary: h, Rule: respBody},
 		{Name: "RespHttpBody", In: "Req", Out: "Reply", Unary: h, Rule: respBody2},
 		{Name: "Raw", In: "Req", Out: "google.api.HttpBody", Unary: h, Rule: getRule("/c04/raw")},
-	}, nil)
+		// registered AFTER the service above: every later registration works on a copy of the routing state
+		{Service: "Late", Name: "L", In: "Req", Out: "Reply", Unary: h, Rule: getRule("/c04/late/{name}")},
+		{Service: "Later", Name: "L", In: "Req", Out: "Reply", Unary: h, Rule: getRule("/c04/nested/{name}/later")},
+	}, nil, larking.MaxReceiveMessageSizeOption(150)) // replies are often larger than what the mux accepts as a REQUEST
 	if err != nil || fx.RegErr != nil || fx.RegPanic != nil {
 		c.SpecFail("fixture", "c04", fmt.Sprint(err, fx.RegErr, fx.RegPanic), "registered", "C04/fixture", "fixture registration failed (response_body rule refused?)")
 		return
